@@ -178,9 +178,8 @@ def maker(cfg, scratch):
         w.idx = w.indexes[0]
         w.auto = True
         if cache and cfg.get("prewarm"):
-            ec = L["Cache"].from_config(w.idx.cache_config)
-            for t in cfg["prewarm"]:
-                ec.set(t, vec(t))
+            # an earlier run of the same index left these texts in the store
+            env.run_now(w.idx._get_embeddings(list(cfg["prewarm"])))
         for idx in w.indexes:
             env.run_now(idx.add_items(list(items)))     # prebuilt: only the item table; api: embeds all items
             if api:
@@ -821,7 +820,7 @@ def _run(rep, tier, base, par):
     # every schedule of the exhaustively enumerated configurations was run, whatever its number of deviations
     # (max_deviations_in_a_schedule); for the bounded ones the smallest completed bound is what can be claimed
     rep.set("max_deviations_completed",
-            min(bounded) if dev_done else rep.cov.get("max_deviations_in_a_schedule", 0))
+            (min(bounded) if bounded else 0) if dev_done else rep.cov.get("max_deviations_in_a_schedule", 0))
     rep.set("violation_classes", {s: {"schedules": v["n"], "smallest": v["what"]} for s, v in sorted(by_sig.items())})
     rep.set("violation_classes_found", len(by_sig))
     rep.set("violation_classes_not_in_known_findings", new)
